@@ -186,7 +186,21 @@ func c13Gen(t *rapid.T) c13Case {
 	c.Opts.Strips = rapid.SampledFrom([][]string{nil, nil, {"sub/"}, {"sub"}, {"@ROOT@/"}, {"@ROOT@"}, {"a/", "b/"}, {"sub/deep/", "sub/"}, {"other/", "sub/"}, {"sub/", "deep/"}, {"sub/", "deep/", "er/"}, {"@ROOT@/", "sub/"},
 		// prefixes that reach into (or through) what may be a followed directory link
 		{"l1/"}, {"lnk/"}, {"zl/", "l2/"}, {"sub/l1/"}, {"l1/deep/"}, {"@ROOT@/lnk/"}, {"x/", "sub/x/"}}).Draw(t, "strips")
-	if rapid.IntRange(0, 7).Draw(t, "distlink") == 0 {
+	if rapid.IntRange(0, 9).Draw(t, "dotdotlink") == 0 {
+		// a link whose text climbs out of a directory that is itself a link: the kernel resolves ".." from where
+		// the linked directory really is (work/sd -> ../real/deep, so work/link -> sd/../secret.txt is real/secret.txt)
+		c.Nodes = append(c.Nodes, hx.TNode{Path: "real", Kind: "dir"}, hx.TNode{Path: "real/deep", Kind: "dir"}, hx.TNode{Path: "work", Kind: "dir"},
+			hx.TNode{Path: "real/secret.txt", Kind: "file", Content: "the file the link leads to\n"},
+			hx.TNode{Path: "work/secret.txt", Kind: "file", Content: "a namesake next to the link\n"},
+			hx.TNode{Path: "work/sd", Kind: "symlink", Target: "../real/deep"},
+			hx.TNode{Path: "work/link", Kind: "symlink", Target: "sd/../secret.txt"})
+		if rapid.Bool().Draw(t, "nonamesake") {
+			c.Nodes = c.Nodes[:len(c.Nodes)-3]
+			c.Nodes = append(c.Nodes, hx.TNode{Path: "work/sd", Kind: "symlink", Target: "../real/deep"}, hx.TNode{Path: "work/link", Kind: "symlink", Target: "sd/../secret.txt"})
+		}
+		c.Opts.Paths = [][]string{{"work"}, {"."}, {"work/link"}, {"@ROOT@/work"}}[rapid.IntRange(0, 3).Draw(t, "ddpaths")]
+		c.Opts.Strips = nil
+	} else if rapid.IntRange(0, 7).Draw(t, "distlink") == 0 {
 		// a build output directory that is a link to the real one, recorded with a prefix that ends in or below it
 		c.Nodes = append(c.Nodes, hx.TNode{Path: "tgtdir", Kind: "dir"}, hx.TNode{Path: "tgtdir/deep", Kind: "dir"},
 			hx.TNode{Path: "tgtdir/in.txt", Kind: "file", Content: "in\n"}, hx.TNode{Path: "tgtdir/deep/in2.txt", Kind: "file", Content: "in2\r\n"},
